@@ -1186,6 +1186,17 @@ class EventBus:
             # Cancel the monitor task on timeout too
             monitor_task.cancel()
 
+            current_task = asyncio.current_task()
+            if (handler_task is None or handler_task.done()) and not (current_task and current_task.cancelling()):
+                # Nobody cancelled this task: the handler itself let a CancelledError escape (e.g. it awaited a task
+                # that had been cancelled). That is an error of this handler like any other, it must not propagate as a
+                # cancellation and tear down the run loop of the bus
+                event.event_result_update(handler=handler, eventbus=self, error=e)
+                logger.error(f'❌ {self} Event handler {get_handler_name(handler)}({event}) raised {type(e).__name__}({e})')
+                raise RuntimeError(
+                    f'Event handler {get_handler_name(handler)}#{handler_id[-4:]}({event}) raised {type(e).__name__}'
+                ) from e
+
             # Create a RuntimeError for timeout
             # TODO: figure out why it breaks when we try to switch to InterruptedError instead of asyncio.CancelledError
             handler_interrupted_error = asyncio.CancelledError(
